@@ -62,12 +62,27 @@ def findings(fn_node):
         if not any(_components(r) == kc for r in reads[cont]):
             continue  # looked up under another key shape: not the memo idiom
         c = call_of(val)
-        if c is None:
-            continue
-        for a in list(c.args) + [k.value for k in c.keywords]:
-            if isinstance(a, ast.Name) and a.id in varying and A.unparse(a) not in kc:
-                proj = [x for x in kc if x.startswith(a.id + ".") or x.startswith(a.id + "[") or ("(" + a.id + ")") in x]
-                out.append((node, cont, A.unparse(key), a.id, proj[0] if proj else None))
+        cands = [c] if c is not None else []
+        # the remembered value may wrap the call: tuple(f(x)) or DEFAULT, sorted(f(x)), ...
+        exprs = [val] + (defs.get(val.id, []) if isinstance(val, ast.Name) else [])
+        cands += [x for e_ in exprs for x in ast.walk(e_) if isinstance(x, ast.Call) and x is not c]
+        seen_args = set()
+        for c in cands:
+            for a in list(c.args) + [k.value for k in c.keywords]:
+                root = a
+                while isinstance(root, (ast.Attribute, ast.Subscript)):
+                    root = root.value
+                if not (isinstance(root, ast.Name) and root.id in varying):
+                    continue
+                if not isinstance(a, (ast.Name, ast.Attribute)):
+                    continue
+                atxt = A.unparse(a)
+                if atxt in kc or atxt in seen_args:
+                    continue
+                proj = [x for x in kc if x.startswith(atxt + ".") or x.startswith(atxt + "[") or ("(" + atxt + ")") in x]
+                if isinstance(a, ast.Name) or proj:
+                    seen_args.add(atxt)
+                    out.append((node, cont, A.unparse(key), atxt, proj[0] if proj else None))
     return out
 
 
@@ -127,7 +142,7 @@ def param_omitted(fx):
         vsrc = fx.sources_with_control(val, node)
         # a chained store `a = memo[k] = f(...)` : the value expression is the same; a Name value is followed by sources()
         for t in sorted(vsrc - ksrc):
-            if t.startswith("param:") and t[6:] not in (fx.selfname, "cls"):
+            if t.startswith("param:") and t[6:] not in (fx.selfname, "cls", "self"):
                 out.append((node, ctext, A.unparse(key), t[6:]))
     return out
 
